@@ -216,6 +216,17 @@ def eval_service(case):
         site = t.network_services['svc'].site
         if exp[1] != site and PINNED[stype][2]:
             v.append(('validate/site-not-recorded', f'after validation service site is {site!r}, expected {exp[1]!r} {ctx}'))
+    # history: validating the unchanged topology again gives the same verdict (and leaves the recorded site alone)
+    try:
+        site1 = t.network_services['svc'].site
+        t.validate()
+        got2 = 'accept'
+    except Exception:
+        got2 = 'reject'
+    if got2 != got:
+        v.append(('validate/not-repeatable', f'first validate() {got}s, a second one on the unchanged topology {got2}s {ctx}'))
+    elif got == 'accept' and t.network_services['svc'].site != site1:
+        v.append(('validate/not-repeatable', f'second validate() changed the recorded site {site1!r} -> {t.network_services["svc"].site!r} {ctx}'))
     return {'v': v, 'nt': tuple(case), 'out': f'{exp[0]}'}
 
 
